@@ -177,7 +177,7 @@ fn judge_replay(chk: &Check, path: &std::path::Path) -> Result<(String, String, 
 
 fn main() {
     let args: Vec<String> = std::env::args().collect();
-    if args.len() < 3 {
+    if args.len() < 2 || (args.len() < 3 && args[1] != "write-demos") {
         usage();
     }
     pipeline::install_quiet_panic_hook();
@@ -189,6 +189,27 @@ fn main() {
     if args[1] == "build-once" {
         pipeline::install_quiet_panic_hook();
         checks::c09::build_once_cli(&args[2], args.get(3).and_then(|s| s.parse().ok()).unwrap_or(4));
+        return;
+    }
+    if args[1] == "write-demos" {
+        pipeline::install_quiet_panic_hook();
+        for d in pv::demos::demos() {
+            let reg = registry();
+            let chk = reg.iter().find(|c| c.id == d.property).expect("property");
+            let p = (chk.props)().into_iter().find(|p| p.dyn_name() == d.prop).expect("prop");
+            let o = p.dyn_replay(&d.case).expect("case decodes");
+            let (kind, detail) = match &o.verdict {
+                Verdict::Fail(k, dt) => (k.clone(), dt.clone()),
+                Verdict::Pass => ("PASS".to_string(), String::new()),
+                Verdict::Discard(w) => (format!("DISCARD {w}"), String::new()),
+            };
+            println!("{} {} -> {}", d.property, d.stem, kind);
+            let dir = driver::verif_root().join("replays").join(d.property);
+            let _ = std::fs::create_dir_all(&dir);
+            let body = serde_json::json!({"property": d.property, "prop": d.prop, "kind": kind, "detail": detail, "case": d.case});
+            std::fs::write(dir.join(format!("{}.json", d.stem)), serde_json::to_string_pretty(&body).unwrap()).unwrap();
+        }
+        pipeline::cleanup_work_root();
         return;
     }
     if args[1] == "gen-corpus" {
